@@ -85,13 +85,36 @@ def coq_sources():
     return sorted(out)
 
 
+def strip_coq_comments(src):
+    """Blank out (nested) comments, keeping line structure."""
+    out = []
+    depth = 0
+    i = 0
+    n = len(src)
+    while i < n:
+        if src.startswith("(*", i):
+            depth += 1
+            i += 2
+            out.append("  ")
+        elif depth and src.startswith("*)", i):
+            depth -= 1
+            i += 2
+            out.append("  ")
+        else:
+            c = src[i]
+            out.append(c if (depth == 0 or c == "\n") else " ")
+            i += 1
+    return "".join(out)
+
+
 def scan_forbidden():
     hits = []
     for p in coq_sources():
         with open(p, encoding="utf-8") as f:
-            for i, line in enumerate(f, 1):
-                if FORBIDDEN.search(line):
-                    hits.append("%s:%d: %s" % (os.path.relpath(p, VERIF), i, line.strip()))
+            src = strip_coq_comments(f.read())
+        for i, line in enumerate(src.split("\n"), 1):
+            if FORBIDDEN.search(line):
+                hits.append("%s:%d: %s" % (os.path.relpath(p, VERIF), i, line.strip()))
     return hits
 
 
